@@ -246,7 +246,7 @@ def task_pairsearch(ctx, arg):
 
 # ---------------------------------------------------------------------------------------------
 # E1: Verus on the mechanically extracted text of the limb layer
-VERUS_PROPS = {'mul': ['C06', 'C07', 'C12', 'C13'], 'sop': ['C06', 'C07', 'C12', 'C13'], 'square': ['C06', 'C07'], 'divrem': ['C13', 'C07'], 'invert': ['C06']}
+VERUS_PROPS = {'fp': ['C06', 'C07', 'C12', 'C13'], 'fpr': ['C06', 'C07', 'C13'], 'mul': ['C06', 'C07', 'C12', 'C13'], 'sop': ['C06', 'C07', 'C12', 'C13'], 'square': ['C06', 'C07'], 'divrem': ['C13', 'C07'], 'invert': ['C06']}
 
 def task_verus(ctx, unit):
     import re, tempfile, shutil
